@@ -33,13 +33,13 @@ import (
 )
 
 const (
-	cpuLimit      = 20 * time.Second  // CPU budget of one decode
-	stallLimit    = 180 * time.Second // wall time without an answer and without CPU use ⇒ inconclusive
-	reqHeaderLen  = 8
-	respLen       = 1 + 8 + 8 + 8
-	maxBatchBytes = 40 << 10
-	retireAfter   = 128 << 20 // a server that allocated this much in one decode is replaced
-	serverHeadroom = 1 << 30  // address space a decode server may add to what it starts with
+	cpuLimit       = 20 * time.Second  // CPU budget of one decode
+	stallLimit     = 180 * time.Second // wall time without an answer and without CPU use ⇒ inconclusive
+	reqHeaderLen   = 8
+	respLen        = 1 + 8 + 8 + 8
+	maxBatchBytes  = 40 << 10
+	retireAfter    = 128 << 20 // a server that allocated this much in one decode is replaced
+	serverHeadroom = 1 << 30   // address space a decode server may add to what it starts with
 )
 
 // selfVMSize is the mapped address space of this process in bytes (0 if unknown).
